@@ -421,6 +421,13 @@ def _leaves(col, rule="C04.R6"):
     rets = rm.returns("LiteralExpr", "_get_value")
     col.add(rule, "LiteralExpr._get_value#literal", bool(rets) and all(v == S.sattr("_arg") for _, v, _, _ in rets),
             rm.sx("LiteralExpr", "_get_value").loc(rm.sx("LiteralExpr", "_get_value").fn), "a literal evaluates to itself", "")
+    navigation_rules(col, rule)
+
+
+def navigation_rules(col, rule="C04.R6"):
+    """ref[key] / ref.name build ItemRef/AttrRef(self, key, manager) with the key exactly as given, for every key
+    except the reserved protocol names (special_methods)"""
+    rm = model(col)
     for meth, cls_, mod in (("__getitem__", "ItemRef", "BaseRef"), ("__getattr__", "AttrRef", "BaseRef"), ("__getattr__", "ItemRef", "ObjectAttrRef")):
         sx = rm.sx(mod, meth)
         kp = sx.P(0)
@@ -428,6 +435,19 @@ def _leaves(col, rule="C04.R6"):
         ok = bool(rets) and all(r.value == S.fcall(cls_, S.SELF, kp, S.sattr("_manager")) for r in rets)
         col.add(rule, f"{mod}.{meth}#navigation", ok, sx.loc(sx.fn), f"{mod}.{meth} builds {cls_}(self, key, self._manager)",
                 S.show(rets[0].value) if rets else "")
+        # which keys are refused: nothing but the reserved names
+        reserved = ("cmp", "not in", kp, S.V("_", lambda t: t[:1] == ("glob",)))
+        extra = []
+        for r in rets:
+            for c in sx.conds(r.nid):
+                if S.match(c, reserved) is None and kp in S.subterms(c):
+                    extra.append(S.show(c))
+        for r in sx.of_kind("raise"):
+            cs = sx.conds(r.nid)
+            if not any(S.match(S.neg(c), reserved) is not None for c in cs) and any(kp in S.subterms(c) for c in cs):
+                extra.append("raises under " + " and ".join(S.show(c) for c in cs))
+        col.add(rule, f"{mod}.{meth}#every-key-navigable", not extra, sx.loc(sx.fn),
+                f"{mod}.{meth} refuses no key/name other than the reserved protocol names", "; ".join(extra))
 
 
 def _calls(col, rule="C04.R7"):
